@@ -38,7 +38,7 @@ ASSUMPTIONS = ["one actor runs at a time (sequentially consistent interleavings 
                "registration checks are linearised per registry: an add is judged against 'registered at some instant during the call'",
                "objects are placed where the (inverted, see C12) area garbage collection leaves them alone; only expiry removes objects"]
 REQUIRED_COUNTERS = ["schedules", "preempted_schedules", "object.histories_checked", "object.concurrent_histories", "provider.histories_checked",
-                     "consumer.histories_checked", "notify.callbacks_judged", "notify.passes_judged", "ids.adds_judged", "lock_waits"]
+                     "consumer.histories_checked", "notify.callbacks_judged", "notify.passes_judged", "ids.adds_judged", "lock_waits", "notify.interval_subscriptions_judged"]
 
 _INS = None
 CAM = 2
@@ -134,6 +134,7 @@ def gen_scenario(rng, conflict=None):
             ({"op": "delete", "pre": live1}, {"op": "query"}),
             # multi-step conflicts: an attendance pass (which works on a snapshot and cleans up at its end) against a consumer
             # that deregisters, registers again and subscribes anew while the pass is under way
+            ([{"op": "attend"}, {"_interval_subs": True}], [{"op": "attend"}]),
             ([{"op": "attend"}], [{"op": "dereg_c2"}, {"op": "reg_c2"}, {"op": "subscribe"}]),
             ([{"op": "attend"}, {"op": "attend"}], [{"op": "dereg_c2"}, {"op": "reg_c2"}, {"op": "subscribe"}, {"op": "add"}]),
         ]
@@ -141,7 +142,10 @@ def gen_scenario(rng, conflict=None):
         if rng.random() < 0.5:
             pair = pair[::-1]
         if isinstance(pair[0], list):
-            actors[0], actors[1] = [dict(o) for o in pair[0]], [dict(o) for o in pair[1]]
+            if any("_interval_subs" in o for o in pair[0] + pair[1]):
+                pre["interval_subs"] = True
+                pre["subs"] = 2
+            actors[0], actors[1] = [dict(o) for o in pair[0] if "op" in o], [dict(o) for o in pair[1] if "op" in o]
             actors[2:] = [[{"op": rng.choice(("add", "query", "attend"))}] for _ in actors[2:3]]
         else:
             actors[0] = [dict(pair[0])] + [o for o in actors[0][:2] if "own" not in o]
@@ -300,19 +304,30 @@ def build(spec):
         ctx.pre_sids = list(ctx.objects)
         sub_next = [0]
 
-        def sub_req(aid):
+        def sub_req(aid, interval=False):
             sub_next[0] += 1
+            if interval:
+                return SubscribeDataobjectsReq(application_id=aid, data_object_type=(CAM,), priority=sub_next[0], filter=None, notify_time=TimestampIts(1000),
+                                               multiplicity=None, order=None), f"s{sub_next[0]}"
             # distinct requests (the subscription id is a hash of the request): priority differs
             return SubscribeDataobjectsReq(application_id=aid, data_object_type=(CAM,), priority=sub_next[0], filter=None, notify_time=None,
                                            multiplicity=None, order=None), f"s{sub_next[0]}"
         ctx.pre_subs = []
         for i in range(spec["pre"]["subs"]):
-            req, key = sub_req(2)
+            req, key = sub_req(2, interval=bool(spec["pre"].get("interval_subs")))
             r = i4.subscribe_data_consumer(req, callback_for(key))
             assert int(r.result) == 0, r
-            ctx.subs[key] = {"aid": 2, "sub_id": r.subscription_id, "pre": True}
+            ctx.subs[key] = {"aid": 2, "sub_id": r.subscription_id, "pre": True, "interval": bool(spec["pre"].get("interval_subs"))}
             ctx.pre_subs.append(key)
-        if spec["adv"]:
+        if spec["pre"].get("interval_subs"):
+            # subscriptions with a 1 s notification interval: one sequential pass starts their cadence, then more than the
+            # interval passes -- in the concurrent part every such subscription is due exactly once
+            serv.attend_subscriptions()
+            clock.advance(2.0)
+            serv.attend_subscriptions()
+            del ctx.cbs[:]
+            clock.advance(2.0)
+        elif spec["adv"]:
             clock.advance(2.0)      # the next add of a reactive variant runs a maintenance / attendance pass inside
         ctx.clock = clock
 
@@ -691,6 +706,14 @@ def judge(ctx, res):
                         f"only decided at event {c['pn']}"))
         if k not in sub_call or c["t"] < sub_call[k]:
             bad.append(("notification-before-subscription", f"{k}"))
+    # cadence under concurrency: the clock does not move during an execution, so a subscription with a notification interval
+    # is notified at most once, however many attendance passes run at the same time
+    for k, v in ctx.subs.items():
+        if v.get("interval"):
+            n_cb = sum(1 for c in ctx.cbs_run if c["key"] == k)
+            res.count("notify.interval_subscriptions_judged")
+            if n_cb > 1:
+                bad.append(("notified-more-than-once-inside-one-interval", f"subscription {k} (interval 1 s) notified {n_cb} times at one instant by concurrent attendance passes"))
     sentinel = ctx.pre_sids[0]
     for o in ops:
         if o["kind"] != "attend" or o["ret"] is None:
@@ -698,6 +721,8 @@ def judge(ctx, res):
         res.count("notify.passes_judged")
         got = {c["key"] for c in ctx.cbs_run if c["op"] is o}
         for k, r in sub_ret.items():
+            if ctx.subs.get(k, {}).get("interval"):
+                continue        # a subscription with an interval is withheld by the later passes of the same instant
             if r < o["call"] and removal_begun.get(k, 1 << 60) > o["ret"]:
                 # the consumer stayed registered (a deregistration would be a removal attempt), the sentinel object is present
                 if k not in got:
@@ -735,7 +760,7 @@ def one(spec, plan, policy, res, mode, log_from=None, instr_points=True):
 
 
 # -------------------------------------------------------------------------------------------------- driver
-N_CONFLICT_PAIRS = 16
+N_CONFLICT_PAIRS = 17
 BUDGET = {"quick": {"sync": 500, "instr": 500, "random": 200}, "thorough": {"sync": 10000, "instr": 6000, "random": 4000}}
 NSHARD = {"quick": {"sync": 2, "instr": 3, "random": 2}, "thorough": {"sync": 4, "instr": 6, "random": 4}}
 # the directed two-actor conflicts are small: one shard per mode explores them
